@@ -172,7 +172,7 @@ Call(s, e, whole, w) ==
 \* GET /reconstruction/<file> (Range: s-(e-1) unless the whole file is asked for)
 ServePlan(p, sh) ==
   /\ phase = "called"
-  /\ PlanOK(p, req.s, req.e)
+  /\ PlanOK(p, req.s, req.e) = TRUE     \* "= TRUE": evaluated as a value (TLC would branch on every \E witness otherwise)
   /\ plan' = p /\ shared' = sh /\ phase' = "run"
   /\ remaining' = (IF req.whole THEN FoldLeft(LAMBDA acc, j : acc + TLenOf(file[p.first + j - 1]), 0, [j \in 1..p.n |-> j])
                    ELSE req.e - req.s)
@@ -302,7 +302,7 @@ Finish ==
 \* the blob store answers GET url, Range: bytes=a-b  (trace validation only: one line per request served)
 Serve(x, a, b) ==
   /\ phase = "run" /\ x \in 1..NX
-  /\ \E i \in 1..Len(plan.fetch[x]) : UrlRange(x, plan.fetch[x][i]) = <<a, b>>
+  /\ (\E i \in 1..Len(plan.fetch[x]) : UrlRange(x, plan.fetch[x][i]) = <<a, b>>) = TRUE
   /\ served' = served + 1
   /\ UNCHANGED <<scen, cache, phase, nreq, writer, shared, req, plan, started, raws, gots, flights, k, remaining, pos,
                  tplan, wrote, total, wlog, reported>>
